@@ -39,6 +39,8 @@ PROBE_CELLS = [
     ("header", {"type": "string", "enum": ["red", "Green"]}),
     ("path", {"type": "string", "format": "date-time"}),
     ("query", {"type": "string", "format": "date-time"}),
+    ("header", {"oneOf": [{"type": "integer"}, {"type": "string"}]}),  # a union-typed header (the parser accepts it)
+    ("cookie", {"oneOf": [{"type": "integer"}, {"type": "boolean"}]}),
 ]
 
 
